@@ -78,7 +78,7 @@ def _pslot(n, tiers):
 
 SPEC = {
     "property": "C13",
-    "level_text": "Bounded symbolic verification of the real block-assembly code of the blockstore (BlockData::try_reconstruct_block, mark_last_slice) on slices that are already decoded: for 1..3 slices, every pattern of which later slice carries a parent, arbitrary slot, slice roots and parent ids, the solver shows that a block is assembled iff it is well-formed (a later slice that names a parent names a different one (one later parent at most in these shapes), all transaction bytes decode), that its hash is the double-Merkle root of the slice roots in index order (reference tree shape from the documentation), that the announced parent is the first slice's parent unless exactly one later slice names another, that the stored block and double-Merkle tree are the announced ones and every slice-root proof served afterwards verifies, that a second call assembles nothing (exactly once), that nothing is assembled without a last-slice marker or with a slice missing. The parent-slot requirement (parent in an earlier slot) is a separate harness: it FAILS on /repo (genuine finding). Only the assembly step is covered: the shred-level half of the property (any 32 of 64 shreds, any order, duplicates, Reed-Solomon decoding, FirstShred / InvalidBlock emission through the async Blockstore) is outside the claim.",
+    "level_text": "Bounded symbolic verification of the real block-assembly code of the blockstore (BlockData::try_reconstruct_block, mark_last_slice) on slices that are already decoded: for 1..3 slices, every pattern of which later slice carries a parent, arbitrary slot, slice roots and parent ids, the solver shows that a block is assembled iff it is well-formed (a later slice that names a parent names a different one (one later parent at most in these shapes), all transaction bytes decode), that its hash is the double-Merkle root of the slice roots in index order (reference tree shape from the documentation), that the announced parent is the first slice's parent unless exactly one later slice names another, that the stored block and double-Merkle tree are the announced ones and every slice-root proof served afterwards verifies, that a second call assembles nothing (exactly once), that nothing is assembled without a last-slice marker or with a slice missing. The parent-slot requirement (parent in an earlier slot) is a separate harness: it FAILS on /repo (genuine finding). Only the assembly step is covered: the shred-level half of the property (any 32 of 64 shreds, any order, duplicates, Reed-Solomon decoding, FirstShred / InvalidBlock emission through the async Blockstore) is outside the claim. After completion (c13_post_equiv): the first shred through the real SlotBlockData::add_shred_from_dissemination, real assembly, then any second validly signed shred (arbitrary slice index, last flag, payload) - reported as equivocation exactly when it contradicts what was accepted, and the announced block stays as it is.",
     "level_note": "Bounds: <= 3 slices per block, empty transaction lists (8 zero bytes) or a 1-byte undecodable payload, ReconstructedSlice objects built by the harness (what Shredder::deshred would return); assumes the first slice carries a parent (enforced by try_reconstruct_slice, which sits behind the Reed-Solomon decoder and is not encoded). SHA-256 is the collision-free oracle; std BTreeMap inside slot_block_data.rs is replaced by a bounded array map (capacity 3, sorted iteration) under Kani, log level pinned to Off; native replay uses the real ones. Trusts Kani's MIR translation, CBMC, CaDiCaL; pointer-validity checks off.",
     "design_ref": "DESIGN.md §4 C13",
     "overlays": OVERLAYS,
